@@ -61,6 +61,15 @@ def units(tier, seed):
         for k in (2, 3):
             for s0 in lat600:
                 us.append({"kind": "main", "lattice": [600, 14400], "k": k, "s0": s0, "valmode": "full", "seed": seed})
+    split = []
+    for u in us:
+        if u["k"] >= 3:
+            step, top = u["lattice"]
+            for s1 in range(u["s0"], top + 1, step):
+                split.append(dict(u, s1=s1))
+        else:
+            split.append(u)
+    us = split
     for off in (0, 1, -1, 1799, 3599):
         us.append({"kind": "variants", "offset": off, "tier": tier, "seed": seed})
     return us
@@ -217,7 +226,12 @@ def main_cases(unit):
     lattice = list(range(0, top + 1, step))
     k, s0 = unit["k"], unit["s0"]
     rest = [x for x in lattice if x >= s0]
-    for tail in itertools.combinations_with_replacement(rest, k - 1):
+    if "s1" in unit:
+        rest1 = [x for x in lattice if x >= unit["s1"]]
+        tails = ((unit["s1"],) + t for t in itertools.combinations_with_replacement(rest1, k - 2))
+    else:
+        tails = itertools.combinations_with_replacement(rest, k - 1)
+    for tail in tails:
         stamps = (s0,) + tail
         for P in (1800, 3600):
             if stamps[-1] - stamps[0] < 2 * P:
